@@ -140,6 +140,7 @@ func cmdCheck(args []string) int {
 	}
 	budget := 90
 	useCache = true
+	thoroughTier = *tier == "thorough"
 	if *tier == "thorough" {
 		budget = 600
 		useCache = false
@@ -234,7 +235,7 @@ func cmdCheck(args []string) int {
 		code = 1
 	}
 	wall := time.Since(t0).Seconds()
-	if os.Getenv("GOVC_UPDATE_CACHE") != "" && code == 0 {
+	if os.Getenv("GOVC_UPDATE_CACHE") != "" {
 		saveCache()
 	}
 	writeEvidence(*prop, *tier, seed, e, out, reported, out.known, wall, map[string]interface{}{"proof_cache_hits": cacheHits, "proof_cache_note": "quick tier: a query whose complete SMT script (sha256) was already answered as expected is not re-solved; thorough tier re-proves everything"})
@@ -431,6 +432,9 @@ func writeEvidence(prop, tier string, seed int, e *Engine, out *checkOutcome, vi
 	cov["inlined_callees_verified_from_source"] = inlinedL
 	cov["generator_errors"] = genErrs
 	cov["known_findings_reported"] = known
+	if skippedThorough {
+		cov["clauses_left_to_thorough_tier"] = "clauses tagged THOROUGH in the contracts (minutes of solver time each) are not generated in the quick tier"
+	}
 	cov["known_finding_obligations"] = knownObl
 	if len(knownObl) > 0 {
 		cov["explanation"] = fmt.Sprintf("%d obligation(s) fail on this tree exactly as recorded in /verif/known_findings.json (open findings, each with a witness test); they are listed under known_finding_obligations and are not part of the obligations/discharged counts, which cover everything else", len(knownObl))
